@@ -3,7 +3,8 @@
 //! aimed at are a few hundred nanoseconds wide and lie between library steps that have no yield point in between).
 //! Round: the sender sends two messages a few hundred ns..µs apart while the loop spins on dispatch(ZERO); once the
 //! sender reports both sends complete, ONE more dispatch(ZERO) must have delivered everything (the ping of a send is
-//! written before send() returns).  Scenario: {"id", "rounds", "bound": -1 | n}.  Logs one `hammer` event.
+//! written before send() returns).  Scenario: {"id", "rounds", "bound": -1 | n, "kind": "chan" | "ping" | "exec"}.
+//! Logs one `hammer` event per scenario.
 use calloop::channel::{channel, sync_channel, Event};
 use calloop::EventLoop;
 use calloop_verif_harness::trace::{self, ev};
@@ -18,7 +19,186 @@ enum Tx {
     Bnd(calloop::channel::SyncSender<u64>),
 }
 
+/// kind "ping": the other thread pings once or twice per round; after ping() has returned, one more dispatch(ZERO)
+/// must have run the callback at least once since the round began.
+fn run_ping(scn: &Value) {
+    let rounds = scn["rounds"].as_u64().unwrap_or(20000);
+    let mut el: EventLoop<'static, u64> = EventLoop::try_new().unwrap();
+    let (ping, src) = calloop::ping::make_ping().unwrap();
+    el.handle().insert_source(src, |(), &mut (), d: &mut u64| *d += 1).unwrap();
+    let go = Arc::new(AtomicU64::new(0));
+    let done = Arc::new(AtomicU64::new(0));
+    let stop = Arc::new(AtomicBool::new(false));
+    let (go2, done2, stop2) = (go.clone(), done.clone(), stop.clone());
+    let th = std::thread::spawn(move || {
+        let mut round = 0u64;
+        let mut x = 0x9E3779B97F4A7C15u64;
+        loop {
+            while go2.load(Ordering::Acquire) <= round {
+                if stop2.load(Ordering::Acquire) {
+                    return;
+                }
+                std::hint::spin_loop();
+            }
+            if stop2.load(Ordering::Acquire) {
+                return;
+            }
+            round += 1;
+            for _ in 0..(1 + round % 2) {
+                x ^= x << 13;
+                x ^= x >> 7;
+                x ^= x << 17;
+                for _ in 0..(x % 400) {
+                    std::hint::spin_loop();
+                }
+                ping.ping();
+            }
+            done2.store(round, Ordering::Release);
+        }
+    });
+    let (mut cbs, mut stranded, mut errs, mut run, mut timed_out) = (0u64, -1i64, 0, 0u64, 0u8);
+    let t0 = Instant::now();
+    'rounds: for round in 1..=rounds {
+        let before = cbs;
+        go.store(round, Ordering::Release);
+        while done.load(Ordering::Acquire) < round {
+            if el.dispatch(Some(Duration::ZERO), &mut cbs).is_err() {
+                errs += 1;
+            }
+            if t0.elapsed() > Duration::from_secs(20) {
+                timed_out = 1;
+                break 'rounds;
+            }
+        }
+        if el.dispatch(Some(Duration::ZERO), &mut cbs).is_err() {
+            errs += 1;
+        }
+        run = round;
+        if cbs == before {
+            stranded = round as i64;
+            break;
+        }
+    }
+    stop.store(true, Ordering::Release);
+    let _ = th.join();
+    ev("hammer", json!({"id": scn["id"], "kind": "ping", "rounds": run, "stranded_round": stranded, "received": cbs, "errs": errs,
+                        "in_order": 1, "closed": 1, "bound": -1, "timed_out": timed_out}));
+}
+
+/// kind "exec": one long-lived future on an executor; the other thread bumps a counter and wakes the future's waker;
+/// after wake() has returned, one more dispatch(ZERO) must have polled the future (it then has seen the counter).
+fn run_exec(scn: &Value) {
+    use std::sync::Mutex;
+    use std::task::{Poll, Waker};
+    let rounds = scn["rounds"].as_u64().unwrap_or(20000);
+    let mut el: EventLoop<'static, u64> = EventLoop::try_new().unwrap();
+    let (exec, sched) = calloop::futures::executor::<u64>().unwrap();
+    el.handle().insert_source(exec, |r, &mut (), d: &mut u64| *d += r).unwrap();
+    let counter = Arc::new(AtomicU64::new(0));
+    let seen = Arc::new(AtomicU64::new(0));
+    let finish = Arc::new(AtomicBool::new(false));
+    let waker: Arc<Mutex<Option<Waker>>> = Arc::new(Mutex::new(None));
+    {
+        let (counter, seen, finish, waker) = (counter.clone(), seen.clone(), finish.clone(), waker.clone());
+        sched
+            .schedule(std::future::poll_fn(move |cx| {
+                *waker.lock().unwrap() = Some(cx.waker().clone());
+                seen.store(counter.load(Ordering::Acquire), Ordering::Release);
+                if finish.load(Ordering::Acquire) {
+                    Poll::Ready(1u64)
+                } else {
+                    Poll::Pending
+                }
+            }))
+            .unwrap();
+    }
+    let mut results = 0u64;
+    let mut errs = 0;
+    while waker.lock().unwrap().is_none() {
+        if el.dispatch(Some(Duration::ZERO), &mut results).is_err() {
+            errs += 1;
+        }
+    }
+    let go = Arc::new(AtomicU64::new(0));
+    let done = Arc::new(AtomicU64::new(0));
+    let stop = Arc::new(AtomicBool::new(false));
+    let (go2, done2, stop2, counter2, waker2) = (go.clone(), done.clone(), stop.clone(), counter.clone(), waker.clone());
+    let th = std::thread::spawn(move || {
+        let mut round = 0u64;
+        let mut x = 0x9E3779B97F4A7C15u64;
+        loop {
+            while go2.load(Ordering::Acquire) <= round {
+                if stop2.load(Ordering::Acquire) {
+                    return;
+                }
+                std::hint::spin_loop();
+            }
+            if stop2.load(Ordering::Acquire) {
+                return;
+            }
+            round += 1;
+            for k in 0..2u64 {
+                x ^= x << 13;
+                x ^= x >> 7;
+                x ^= x << 17;
+                for _ in 0..(x % 400) {
+                    std::hint::spin_loop();
+                }
+                counter2.store(round * 2 + k, Ordering::Release);
+                let w = waker2.lock().unwrap().clone();
+                if let Some(w) = w {
+                    if k == 0 {
+                        w.wake_by_ref();
+                    } else {
+                        w.wake();
+                    }
+                }
+            }
+            done2.store(round, Ordering::Release);
+        }
+    });
+    let (mut stranded, mut run, mut timed_out) = (-1i64, 0u64, 0u8);
+    let t0 = Instant::now();
+    'rounds: for round in 1..=rounds {
+        go.store(round, Ordering::Release);
+        while done.load(Ordering::Acquire) < round {
+            if el.dispatch(Some(Duration::ZERO), &mut results).is_err() {
+                errs += 1;
+            }
+            if t0.elapsed() > Duration::from_secs(20) {
+                timed_out = 1;
+                break 'rounds;
+            }
+        }
+        if el.dispatch(Some(Duration::ZERO), &mut results).is_err() {
+            errs += 1;
+        }
+        run = round;
+        if seen.load(Ordering::Acquire) != round * 2 + 1 {
+            stranded = round as i64;
+            break;
+        }
+    }
+    stop.store(true, Ordering::Release);
+    let _ = th.join();
+    // let the future finish: its result must be delivered exactly once
+    finish.store(true, Ordering::Release);
+    if let Some(w) = waker.lock().unwrap().take() {
+        w.wake();
+    }
+    for _ in 0..4 {
+        let _ = el.dispatch(Some(Duration::ZERO), &mut results);
+    }
+    ev("hammer", json!({"id": scn["id"], "kind": "exec", "rounds": run, "stranded_round": stranded, "received": results, "errs": errs,
+                        "in_order": 1, "closed": results, "bound": -1, "timed_out": timed_out}));
+}
+
 fn run_scenario(scn: &Value) {
+    match scn["kind"].as_str().unwrap_or("chan") {
+        "ping" => return run_ping(scn),
+        "exec" => return run_exec(scn),
+        _ => {}
+    }
     let rounds = scn["rounds"].as_u64().unwrap_or(20000);
     let bound = scn["bound"].as_i64().unwrap_or(-1);
     let mut el: EventLoop<'static, (Vec<u64>, u32)> = EventLoop::try_new().unwrap();
@@ -79,25 +259,25 @@ fn run_scenario(scn: &Value) {
     let mut errs = 0;
     let t0 = Instant::now();
     let mut run = 0u64;
-    for round in 1..=rounds {
-        run = round;
+    let mut timed_out = 0u8;
+    'rounds: for round in 1..=rounds {
         go.store(round, Ordering::Release);
         while done.load(Ordering::Acquire) < round {
             if el.dispatch(Some(Duration::ZERO), &mut data).is_err() {
                 errs += 1;
             }
             if t0.elapsed() > Duration::from_secs(20) {
-                break;
+                // machine too slow: stop without judging the round in progress
+                timed_out = 1;
+                break 'rounds;
             }
         }
         if el.dispatch(Some(Duration::ZERO), &mut data).is_err() {
             errs += 1;
         }
+        run = round;
         if data.0.len() as u64 != 2 * round {
             stranded = round as i64;
-            break;
-        }
-        if t0.elapsed() > Duration::from_secs(20) {
             break;
         }
     }
@@ -109,7 +289,7 @@ fn run_scenario(scn: &Value) {
     }
     let in_order = data.0.windows(2).all(|w| w[0] < w[1]);
     ev("hammer", json!({"id": scn["id"], "rounds": run, "stranded_round": stranded, "received": data.0.len(), "errs": errs,
-                        "in_order": in_order as u8, "closed": data.1, "bound": bound}));
+                        "in_order": in_order as u8, "closed": data.1, "bound": bound, "kind": "chan", "timed_out": timed_out}));
 }
 
 fn main() {
